@@ -21,13 +21,18 @@ def run(rep):
                 "Content is random (geometry is content independent). Distinct = distinct (w,h,bits-per-pixel,direction).")
     geoms = [(w, h) for w in range(1, maxd + 1) for h in range(1, maxd + 1)]
     large = [(100, 1), (1, 100), (255, 3), (256, 5), (257, 2), (3, 300), (640, 2), (2, 513), (1000, 1), (129, 130)]
+    # sizes beyond every power-of-two table or buffer size a conversion might use (8192, 16384, 32768 columns or rows)
+    # (the extracted model and specification work on lists: quadratic in the row length, so only a few such sizes)
+    huge = [(8194, 2), (8200, 1), (2, 8200)] + ([] if quick else [(16390, 1), (1, 16390), (8193, 3)])
     cs = vlib.Cases()
     k = 0
-    for (w, h) in geoms + large:
+    for (w, h) in geoms + large + huge:
         if w <= 9 and h <= 9 and (quick is False or (w * h) % 2 == 1 or w <= 5):
             pairs = pg.LEGAL
         else:
             pairs = [pg.LEGAL[k % 15], pg.LEGAL[(k * 7 + 3) % 15]] if quick else pg.LEGAL[k % 15:k % 15 + 5] + pg.LEGAL[:max(0, k % 15 + 5 - 15)]
+            if (w, h) in huge:
+                pairs = [(0, 8), (0, 1)] if quick else [(0, 8), (0, 1), (2, 8), (6, 16)]
             k += 1
         for (ct, depth) in pairs:
             bpp = depth * pg.CHANNELS[ct]
@@ -121,8 +126,8 @@ def run(rep):
     rep.sample(vlib.short(cs.lines[3], 200) + " -> " + vlib.short(ri.get("c3"), 120))
     rep.sample(vlib.short(cs.lines[0], 200) + " -> " + vlib.short(ri.get("c0"), 120))
     rep.extra["geometries"] = len(geoms) + len(large)
-    rep.notes.append("deinterlace_image: the scatter loop is tied by correspondence and by the spec oracle on every geometry of the tier; "
-                     "its general theorem (deinterlace after interlace = identity for all w,h) is not yet proved in Coq.")
+    rep.notes.append("deinterlace_image = the specification's de-interlacing for every w, h and pixel size is proved (C18_deinterlace_is_spec); the code is "
+                     "tied to the model by correspondence and to the specification by the oracle on every geometry of the tier.")
 
 
 def replay(payload, info):
